@@ -66,6 +66,7 @@ type Contract struct {
 	FnDecreases  *Clause
 	Partial      bool
 	Reads        []string
+	Guard        *Clause
 	ExitHints    []Clause
 	IsLemma      bool
 	LemmaPTypes  []ast.Expr
@@ -113,6 +114,7 @@ type Engine struct {
 	VerifDir  string
 	Findings  []*Finding
 	assigned  map[types.Object]bool // package-level vars assigned somewhere
+	addrTaken map[*types.Var]bool   // struct fields whose address is taken (&p.f)
 	modCache  map[*types.Func]map[string]bool
 	Warnings  []string
 }
@@ -165,7 +167,7 @@ func Load(repoDir, verifDir string, patterns []string) (*Engine, error) {
 		Funcs: map[string]*FuncInfo{}, ByObj: map[*types.Func]*FuncInfo{},
 		Contracts: map[string]*Contract{}, SpecFns: map[string]*SpecFn{},
 		RepoDir: repoDir, VerifDir: verifDir,
-		assigned: map[types.Object]bool{}, modCache: map[*types.Func]map[string]bool{},
+		assigned: map[types.Object]bool{}, modCache: map[*types.Func]map[string]bool{}, addrTaken: map[*types.Var]bool{},
 	}
 	var errs []string
 	for _, p := range pkgs {
@@ -216,6 +218,18 @@ func Load(repoDir, verifDir string, patterns []string) (*Engine, error) {
 				case *ast.UnaryExpr:
 					if s.Op == token.AND {
 						e.noteAssigned(p, s.X)
+						// &x.f with x a pointer to a struct: f is an address-taken field
+						if sel, ok := unparenExpr(s.X).(*ast.SelectorExpr); ok {
+							if sl, ok := p.TypesInfo.Selections[sel]; ok && sl.Kind() == types.FieldVal {
+								if fv, ok := sl.Obj().(*types.Var); ok {
+									if bt := p.TypesInfo.TypeOf(sel.X); bt != nil {
+										if _, isPtr := bt.Underlying().(*types.Pointer); isPtr {
+											e.addrTaken[fv.Origin()] = true
+										}
+									}
+								}
+							}
+						}
 					}
 				}
 				return true
@@ -291,8 +305,10 @@ var clauseKeywords = map[string]bool{
 	"ensures": true, "assigns": true, "loop": true, "invariant": true, "decreases": true,
 	"func": true, "spec": true, "axiom": true, "instantiate": true, "nosafety": true,
 	"onlysafety": true, "unfold": true, "assert": true, "cases": true, "partial": true,
-	"lemma": true, "induction": true, "uses": true, "hint": true, "reads": true,
+	"lemma": true, "induction": true, "uses": true, "hint": true, "reads": true, "guard": true,
 }
+
+var assertRe = regexp.MustCompile(`^(before|after)\s+([A-Za-z_][A-Za-z0-9_]*)#([0-9]+)\s*:\s*(.*)$`)
 
 var lemmaRe = regexp.MustCompile(`^([A-Za-z_][A-Za-z0-9_]*)\s*\(([^)]*)\)$`)
 
@@ -427,6 +443,12 @@ func (e *Engine) parseContracts(body, pkgPath, file string, line0 int) error {
 				cur.NoSafety = true
 			case "partial":
 				cur.Partial = true
+			case "guard":
+				cl, err := mkClause(rc)
+				if err != nil {
+					return err
+				}
+				cur.Guard = &cl
 			case "uses":
 				cur.Uses = append(cur.Uses, strings.Fields(strings.ReplaceAll(rc.text, ",", " "))...)
 			case "induction":
@@ -512,6 +534,19 @@ func (e *Engine) parseContracts(body, pkgPath, file string, line0 int) error {
 					cl.Label = fmt.Sprint(len(curLoop.Invariants) + 1)
 				}
 				curLoop.Invariants = append(curLoop.Invariants, cl)
+			case "assert":
+				// assert before|after Callee#k: <expr> — an assertion at a call site of the function body
+				// (k-th call of a function/method named Callee, in source order of execution)
+				m := assertRe.FindStringSubmatch(rc.text)
+				if m == nil {
+					return fmt.Errorf("%s:%d: assert before|after Name#k: expr", file, rc.line)
+				}
+				ex, err := ParseSpecExpr(m[4])
+				if err != nil {
+					return fmt.Errorf("%s:%d: %v", file, rc.line, err)
+				}
+				site := m[1] + " " + m[2] + "#" + m[3]
+				cur.Asserts[site] = append(cur.Asserts[site], Clause{Label: m[1] + "-" + m[2] + "#" + m[3], Src: m[4], Expr: ex, Line: rc.line})
 			case "hint":
 				// hint <expr>: an assertion proved and then assumed — at the start of the loop body
 				// (inside `loop k`) or at the function's exit; used to put lemma instances in front of the solver
@@ -734,4 +769,14 @@ func (e *Engine) findingsFor(obl string) []*Finding {
 		}
 	}
 	return out
+}
+
+func unparenExpr(e ast.Expr) ast.Expr {
+	for {
+		p, ok := e.(*ast.ParenExpr)
+		if !ok {
+			return e
+		}
+		e = p.X
+	}
 }
